@@ -253,7 +253,8 @@ pub fn child(tier: Tier) -> ! {
 }
 
 fn run_child(seed: Option<u64>, tier: Tier) -> Result<serde_json::Value, String> {
-    let exe = std::env::current_exe().map_err(|e| e.to_string())?;
+    // /proc/self/exe keeps working when the binary on disk is replaced by a rebuild meanwhile
+    let exe = if std::path::Path::new("/proc/self/exe").exists() { std::path::PathBuf::from("/proc/self/exe") } else { std::env::current_exe().map_err(|e| e.to_string())? };
     let mut cmd = std::process::Command::new(exe);
     cmd.args(["C14CHILD", tier.name()]).env("VERIF_THREADS", "1").env("RAYON_NUM_THREADS", "1");
     if let Some(s) = seed {
